@@ -1,5 +1,13 @@
-import Tahoe.Storage.Immutable
-/-! C22 — immutable share storage semantics (property theorems). -/
+import Tahoe.Storage.ImmServerLemmas
+/-!
+C22 — immutable share storage semantics (property theorems only; helper lemmas live in
+`Tahoe/Storage/ImmLemmas.lean` and `Tahoe/Storage/ImmServerLemmas.lean`).
+
+Model: `Tahoe/Storage/Immutable.lean` (ShareFile / BucketWriter / BucketReader / allocate_buckets /
+get_buckets); specification and abstraction function: `Tahoe/Storage/ImmSpec.lean`.
+`WF` is the reachable-state invariant; `invariant_holds` shows every history from an empty server
+satisfies it, so the hypotheses `WF s` below are never vacuous restrictions.
+-/
 namespace Tahoe.C22
 open Tahoe.Base.File Tahoe.Storage.Imm Tahoe.Generated.Storage
 
@@ -8,6 +16,193 @@ theorem layout_constants :
     imm_LEASE_SIZE = 72 ∧ imm_DATA_OFFSET = 12 ∧ imm_HEADER_SIZE = 12 ∧ imm_NEWEST_SCHEMA_VERSION = 2 ∧
     imm_SCHEMA_VERSIONS = [1, 2] ∧ lease_IMMUTABLE_SIZE = 72 ∧
     header 10 = imm_HEADER_SAMPLE_10 ∧ header (2 ^ 32 + 5) = imm_HEADER_SAMPLE_BIG := by
+  decide
+
+/-! a concrete history used by the `example`s: two shares allocated, out-of-order overlapping
+    writes, a conflicting write, one close, one abort -/
+def exRec : Bytes := List.replicate 72 7
+def exOps : List Op :=
+  [.alloc 0 [0, 1] 4 exRec 1000 [], .write 0 2 [5, 6], .write 0 1 [9, 5], .write 0 2 [8], .close 0, .abort 1,
+   .advance 1800]
+def exS : Server := run (Server.empty false 0) exOps
+
+/-- every history of well-formed operations from an empty server satisfies the invariant -/
+theorem invariant_holds (ro : Bool) (rs : Nat) (ops : List Op) (ok : ∀ op ∈ ops, OpOk op) :
+    WF (run (Server.empty ro rs) ops) :=
+  wf_run _ (wf_empty ro rs) ops ok
+
+example : WF exS := invariant_holds false 0 exOps (by
+  intro op ho
+  simp only [exOps, List.mem_cons, List.mem_nil_iff, or_false] at ho
+  rcases ho with rfl | rfl | rfl | rfl | rfl | rfl | rfl <;> simp [OpOk, exRec])
+
+/-- does `op`, executed in state `s`, complete the upload of `k`? (a `close` through a live handle) -/
+def closesKey (s : Server) (op : Op) (k : Key) : Bool :=
+  match op with
+  | .close wid => match findWid wid s.incoming with
+    | some e => e.1 == k
+    | none => false
+  | _ => false
+
+/-- some operation of the history completed the upload of `k` -/
+def closedIn : Server → List Op → Key → Bool
+  | _, [], _ => false
+  | s, op :: rest, k => closesKey s op k || closedIn (step s op) rest k
+
+theorem visible_step (s : Server) (h : WF s) (op : Op) (ok : OpOk op) (k : Key) :
+    visible (step s op) k = (visible s k || closesKey s op k) := by
+  cases op with
+  | alloc si shs size rec free order =>
+    simp [closesKey, step, (allocate_effect s h si shs size rec ok free order).2.1 k]
+  | write wid off data =>
+    simp only [step, closesKey, Bool.or_false]
+    cases hf : findWid wid s.incoming with
+    | none => rw [(findWid_none_effects s wid hf off data).1]
+    | some e =>
+      obtain ⟨k', w, f⟩ := e
+      simp only [visible, (writeOp_effect s h wid off data k' w f hf).2.1]
+  | close wid =>
+    simp only [step, closesKey]
+    cases hf : findWid wid s.incoming with
+    | none => rw [(findWid_none_effects s wid hf 0 []).2.1]; simp
+    | some e =>
+      obtain ⟨k', w, f⟩ := e
+      simp only [visible, (closeOp_effect s h wid k' w f hf).2.2.2.2.1 k]
+      by_cases hk : k' = k <;> simp [hk]
+  | abort wid =>
+    simp only [step, closesKey, Bool.or_false]
+    cases hf : findWid wid s.incoming with
+    | none => rw [(findWid_none_effects s wid hf 0 []).2.2]
+    | some e =>
+      obtain ⟨k', w, f⟩ := e
+      simp only [visible, (abortOp_effect s h wid k' w f hf).2.1]
+  | advance dt => simp [step, closesKey, visible, (advanceOp_effect s h dt).2.1]
+  | read k' off len => simp [step, closesKey]
+  | list si => simp [step, closesKey]
+
+/-- **visible_iff_closed**: after any history from an empty server, a share is visible to readers
+    (`shnum ∈ get_buckets(si)`, readable) iff some `close()` through a live handle of that share
+    happened — never merely by allocating or writing, and whatever aborts/timeouts occurred. -/
+theorem visible_iff_closed (ro : Bool) (rs : Nat) (ops : List Op) (ok : ∀ op ∈ ops, OpOk op) (k : Key) :
+    visible (run (Server.empty ro rs) ops) k = closedIn (Server.empty ro rs) ops k := by
+  suffices H : ∀ (s : Server), WF s → ∀ ops, (∀ op ∈ ops, OpOk op) →
+      visible (run s ops) k = (visible s k || closedIn s ops k) by
+    have := H _ (wf_empty ro rs) ops ok
+    simpa [visible, Server.empty, getK] using this
+  intro s h ops
+  induction ops generalizing s with
+  | nil => intro _; simp [run, closedIn]
+  | cons op rest ih =>
+    intro ok
+    have okh := ok op List.mem_cons_self
+    simp only [run, List.foldl_cons, closedIn]
+    have := ih (step s op) (step_refines s h op okh).1 (fun o ho => ok o (List.mem_cons_of_mem _ ho))
+    simp only [run] at this
+    rw [this, visible_step s h op okh k, Bool.or_assoc]
+
+example : visible exS (0, 0) = true ∧ visible exS (0, 1) = false ∧
+    closedIn (Server.empty false 0) exOps (0, 0) = true := by decide
+
+/-- **read_returns_written**: when an upload is closed, every read of the now visible share
+    returns the written cells of the write-once array (`cellsOf`: the byte written where some
+    accepted write covered the offset), zeros where nothing was written, clipped at the allocated
+    size (the array has exactly `maxSize` cells).  `refines_spec` shows the cells are exactly the
+    accepted writes and that nothing changes them afterwards. -/
+theorem read_returns_written (s : Server) (h : WF s) (wid : Nat) (k : Key) (w : Writer) (f : File)
+    (hf : findWid wid s.incoming = some (k, (w, f))) (off len : Nat) :
+    readOp (closeOp s wid).1 k off len = some (pread (specData (cellsOf w f)) off len) ∧
+    (specData (cellsOf w f)).length = w.maxSize ∧
+    (∀ i, i < w.maxSize → (specData (cellsOf w f))[i]? =
+        some (if rmMem w.written i then f[12 + i]?.getD 0 else 0)) := by
+  have e := closeOp_effect s h wid k w f hf
+  refine ⟨?_, by simp [specData, cellsOf], ?_⟩
+  · rw [read_refines _ e.1, e.2.2.2.1 k, e.2.2.1]
+    simp [specClose, specRead]
+  · intro i hi
+    simp only [specData, cellsOf, List.getElem?_map, List.map_map, List.getElem?_range hi,
+      Option.map_some, Function.comp]
+    split <;> simp
+
+example : readOp exS (0, 0) 0 100 = some [0, 9, 5, 6] ∧ readOp exS (0, 0) 3 1 = some [6] ∧
+    readOp exS (0, 1) 0 1 = none := by decide
+
+/-- **conflict_rejected_unchanged**: a write through a live handle that overlaps already written
+    data with a different byte is rejected with `ConflictingWriteError`, and neither the cells of
+    that upload, nor any other share, nor the reservation change. -/
+theorem conflict_rejected_unchanged (s : Server) (h : WF s) (wid off : Nat) (data : Bytes) (k : Key)
+    (w : Writer) (f : File) (hf : findWid wid s.incoming = some (k, (w, f)))
+    (hc : ConflictAt w f off data) :
+    (writeOp s wid off data).2 = .conflict ∧
+    (∀ k', absShare (writeOp s wid off data).1 k' = absShare s k') ∧
+    (writeOp s wid off data).1.final = s.final ∧
+    allocatedSize (writeOp s wid off data).1 = allocatedSize s := by
+  have e := writeOp_effect s h wid off data k w f hf
+  have hg : getK k s.incoming = some (w, f) := findWid_getK wid _ h.incKeys _ hf
+  have hsc : specConflict (cellsOf w f) off data = true :=
+    (specConflict_cellsOf w f off data (h.inc k w f hg)).mpr hc
+  refine ⟨?_, ?_, e.2.1, e.2.2.2.2.2⟩
+  · have := e.2.2.2.2.1
+    simp only [specWrite, hsc, if_true] at this
+    cases hr : (writeOp s wid off data).2 <;> simp_all [toSpecRes]
+  · intro k'
+    rw [e.2.2.2.1 k']
+    split
+    · rename_i hk; subst hk
+      rw [e.2.2.1]; simp [specWriteShare, specWrite, hsc]
+    · rfl
+
+example : (writeOp (run (Server.empty false 0) (exOps.take 3)) 0 2 [8]).2 = .conflict := by decide
+
+/-- **aborted_leaves_nothing**: `abort()` / `disconnected()` through a live handle removes the
+    incoming file, creates nothing visible, and releases exactly the upload's reservation. -/
+theorem aborted_leaves_nothing (s : Server) (h : WF s) (wid : Nat) (k : Key) (w : Writer) (f : File)
+    (hf : findWid wid s.incoming = some (k, (w, f))) :
+    getK k (abortOp s wid).incoming = none ∧ (abortOp s wid).final = s.final ∧
+    absShare (abortOp s wid) k = .absent ∧
+    allocatedSize (abortOp s wid) + w.maxSize = allocatedSize s := by
+  have e := abortOp_effect s h wid k w f hf
+  exact ⟨e.2.2.1, e.2.1, by rw [e.2.2.2.1 k]; simp, e.2.2.2.2⟩
+
+/-- the same for the 30-minute timeout: once the clock passes an upload's deadline the upload is
+    gone (file and reservation), nothing becomes visible, and uploads whose deadline has not
+    passed are untouched -/
+theorem timed_out_leaves_nothing (s : Server) (h : WF s) (dt : Nat) :
+    (advanceOp s dt).final = s.final ∧
+    (∀ k w f, getK k s.incoming = some (w, f) → w.deadline ≤ s.now + dt →
+        getK k (advanceOp s dt).incoming = none ∧ absShare (advanceOp s dt) k = .absent) ∧
+    (∀ k w f, getK k (advanceOp s dt).incoming = some (w, f) →
+        getK k s.incoming = some (w, f) ∧ s.now + dt < w.deadline) := by
+  have e := advanceOp_effect s h dt
+  refine ⟨e.2.1, ?_, e.2.2.1⟩
+  intro k w f hk hd
+  have hn := e.2.2.2.1 k w f hk hd
+  refine ⟨hn, ?_⟩
+  have hfin := final_none_of_inc s h k _ hk
+  simp only [absShare, e.2.1, hfin, hn]
+
+example : allocatedSize (run (Server.empty false 0) (exOps.take 5)) = 4 ∧
+    allocatedSize (run (Server.empty false 0) (exOps.take 6)) = 0 ∧ exS.incoming = [] := by decide
+
+/-- **refines_spec**: along any history over any number of (SI, shnum), every step of the model
+    is a step of the specification "map (SI, shnum) → write-once byte array with an in-progress
+    flag" under the abstraction `absShare`, and reads return what the specification returns. -/
+theorem refines_spec (ro : Bool) (rs : Nat) (pre : List Op) (op : Op)
+    (ok : ∀ o ∈ pre ++ [op], OpOk o) :
+    let s := run (Server.empty ro rs) pre
+    SpecStep s (absShare s) op (absShare (step s op)) ∧
+    (∀ k off len, readOp s k off len = specRead (absShare s k) off len) ∧
+    (∀ wid off data k w f, findWid wid s.incoming = some (k, (w, f)) →
+        absShare s k = .inProgress w.maxSize (cellsOf w f) ∧
+        toSpecRes (writeOp s wid off data).2 = (specWrite w.maxSize (cellsOf w f) off data).2) := by
+  intro s
+  have hw : WF s := invariant_holds ro rs pre (fun o ho => ok o (List.mem_append_left _ ho))
+  refine ⟨(step_refines s hw op (ok op (by simp))).2, fun k off len => read_refines s hw k off len, ?_⟩
+  intro wid off data k w f hf
+  have e := writeOp_effect s hw wid off data k w f hf
+  exact ⟨e.2.2.1, e.2.2.2.2.1⟩
+
+example : absShare exS (0, 0) = .complete [0, 9, 5, 6] ∧ absShare exS (0, 1) = .absent ∧
+    absShare (run (Server.empty false 0) (exOps.take 3)) (0, 0) = .inProgress 4 [none, some 9, some 5, some 6] := by
   decide
 
 end Tahoe.C22
